@@ -8,6 +8,7 @@ open Window
 open FileIface
 open CtrIO
 open CbcIO
+open Exefs
 open Driver_base
 
 let opt f = function None -> "-" | Some x -> f x
@@ -136,12 +137,23 @@ let run_cbc toks =
     end
   | _ -> failwith "cbc args"
 
+(* exefs <headerhex>  ->  name,offset,size,hash ...   or e:Error *)
+let run_exefs toks =
+  match toks with
+  | [hdr] ->
+    (match exefs_parse (bytes_of_hex hdr) with
+     | Ok es -> String.concat " " (Stdlib.List.map (fun e ->
+         hex_of_bytes e.en_name ^ "," ^ hex_of_z e.en_offset ^ "," ^ hex_of_z e.en_size ^ "," ^ hex_of_bytes e.en_hash) es)
+     | Err e -> "e:" ^ err_name e)
+  | _ -> failwith "exefs args"
+
 let dispatch (line : string) : string =
   match String.split_on_char ' ' (String.trim line) with
   | "engine" :: toks -> run_engine toks
   | "window" :: toks -> run_window toks
   | "ctr" :: toks -> run_ctr toks
   | "cbc" :: toks -> run_cbc toks
+  | "exefs" :: toks -> run_exefs toks
   | e :: _ -> failwith ("unknown entry " ^ e)
   | [] -> ""
 
